@@ -6,6 +6,12 @@ impl<T: BytesVecValue> RawStrategy<T> for BytesStrategy<T> {
     #[inline(always)]
     unsafe fn read_from_ptr(ptr: *const u8, byte_offset: usize) -> T {
         unsafe {
+            #[cfg(feature = "verif")]
+            rawdb::verif::access(
+                rawdb::verif::AccessKind::Mmap,
+                ptr as usize + byte_offset,
+                size_of::<T>(),
+            );
             if T::IS_NATIVE_LAYOUT {
                 (ptr.add(byte_offset) as *const T).read_unaligned()
             } else {
